@@ -21,5 +21,10 @@
 //@|        options.max_timeouts is None ==> r.1.tcp_task().client_loop.timeout_counter.limit() is None,
 //@|        options.max_timeouts is Some ==> r.1.tcp_task().client_loop.timeout_counter.limit() == Some(crate::nz_value(options.max_timeouts->Some_0)),
 //@|        r.1.tcp_task().client_loop.rx.0.chan == r.0.tx.chan,
+//@fn rodbus/src/tcp/tls/client.rs | spawn_tls_channel | tags=C09,C13,C18,C20
+//@|    requires listener.log().len() == 0,
+//@exit 0| assert(task.is_tcp_task() && (task.tcp_task().connection_handler matches TcpTaskConnectionHandler::Tls(c) && c.id == tls_config.id)
+//@exit 0|     && task.tcp_task().client_loop.decode == options.decode_level && task.tcp_task().states() == listener.log()
+//@exit 0|     && task.tcp_task().client_loop.rx.0.chan == handle.tx.chan);
         }
     }
